@@ -1317,9 +1317,15 @@ def _unwrap(x):
     return x
 
 
+def _is_dask(x):
+    return hasattr(x, 'numblocks') and hasattr(x, '_cap')
+
+
 def _ew(fsym, fconc, fdtype=True):
     def g(x, *a, **k):
         x = _unwrap(x)
+        if _is_dask(x):
+            return x._lazy(lambda w: g(w))       # numpy ufuncs on dask arrays stay lazy (__array_ufunc__)
         if isinstance(x, MaskedSel):
             return x._map(g)
         if isinstance(x, (SymArray, list, tuple, _np.ndarray)):
@@ -1598,6 +1604,9 @@ def sort(a, axis=-1, **kw):
 
 
 def unique(a, return_counts=False, return_inverse=False, return_index=False, **kw):
+    if _is_dask(a):
+        from . import symda
+        return symda.unique(a, return_counts=return_counts)     # __array_function__ dispatch
     if return_inverse or return_index:
         raise ShimMissing("unique(return_inverse/index)")
     if isinstance(a, MaskedSel):
